@@ -6,8 +6,10 @@ nothing from /verif. Round 1 is the plain request, round 2 adds HARD MODE (rare 
 triggers), round 3 asks for a different kind of subtlety (secondary clauses, alternative entry
 points, cumulative histories)."""
 import json, os, sys
-if len(sys.argv) > 1 and sys.argv[1] == "benign":
+BENIGN_ROUND = 1
+if len(sys.argv) > 1 and sys.argv[1] in ("benign", "benign2"):
     rnd = 0
+    BENIGN_ROUND = 2 if sys.argv[1] == "benign2" else 1
 else:
     rnd = int(sys.argv[1]) if len(sys.argv) > 1 else 1
 R = "" if rnd == 1 else str(rnd)
@@ -72,10 +74,27 @@ Leave the worktree CLEAN at the end (`git checkout -- . && git clean -fd` except
 ## Rules
 - No new dependencies. Do not edit existing tests. Do not break other workspace members. A and B must differ in kind.
 - Your final message: for A and B, three lines (what changed, which incidental behaviour differs, why the property still holds) and the file paths."""
+BENIGN2_EXTRA = """
+## SECOND ROUND (read carefully)
+A first round of benign changes has been collected and the oracle is silent on all of them. Already covered (do NOT repeat these kinds): reordering the terms of a returned function or the entries of a returned list; inserting a new variable somewhere else than at the end; returning an equal polynomial in another message variant (Constant / Linear / Quadratic / Polynomial); multiplying an equality by a positive constant; a different but complete set of bit weights; rewording error messages or reporting another of several simultaneous faults; a topological sort instead of a fixed-point loop; pairwise instead of left-to-right summation; sorting evaluated constraints by id; adding a description to a generated variable; UTC instead of local-offset timestamps.
+Find benign changes of a DIFFERENT kind. Directions that are still open:
+- IDENTITY freedom: where the statement only says an id is "fresh"/"new"/"unique", choose different fresh ids (a gap, a different base, descending); where it says "one parameter per constraint", keep that but change everything else about the parameters (names, descriptions, order);
+- NUMERIC freedom the statement grants explicitly ("up to rounding", "documented dropping of coefficients below machine epsilon", "encloses"): use fused multiply-add, a different association of products, drop a below-epsilon coefficient earlier or later, return a tighter or a (validly) wider enclosure, -0.0 instead of +0.0;
+- OPTIONAL-FIELD freedom: an absent optional field vs. its explicit default where the statement treats them alike (bound None vs (-inf, inf), empty vs absent maps and lists, Some(empty parameters) vs None where nothing is promised);
+- EXTRA output the statement does not forbid: additional annotations, names, subscripts, removed-reason parameters, log output, an extra unused-but-harmless field set on a result;
+- ACCEPTING MORE / REJECTING DIFFERENTLY only outside the statement's quantifier (inputs the statement explicitly excludes), leaving every quantified input untouched;
+- INTERNAL STATE: caching, pre-sizing, cloning less, iterating a BTreeMap instead of a HashMap, making a HashMap-order-dependent but equally valid choice deterministic or the other way round;
+- API-level refactors that keep signatures: by-value vs by-reference internals, moving logic between the typed and message-level layer.
+Stay strictly inside what the statement leaves open: if a reader could argue that the statement promises the behaviour you are changing, pick something else (or record the argument under "doubt").
+"""
 for pid, p in props.items():
     if rnd == 0:
         text = json.dumps({k: p[k] for k in ['id', 'title', 'statement', 'quantifier', 'anchors']}, indent=1)
-        open(f'/tmp/seedwork/prompt-{pid}-benign.txt', 'w').write(BENIGN.format(wt=f'/tmp/benign-{pid}', out=f'/tmp/benign-{pid}-out', demo=f'benign_demo_{pid.lower()}', text=text, pid=pid))
+        tag = 'benign2' if BENIGN_ROUND == 2 else 'benign'
+        body = BENIGN.format(wt=f'/tmp/{tag}-{pid}', out=f'/tmp/{tag}-{pid}-out', demo=f'{tag}_demo_{pid.lower()}', text=text, pid=pid)
+        if BENIGN_ROUND == 2:
+            body = body.replace("## What to deliver: TWO independent benign changes (A and B)", BENIGN2_EXTRA + "\n## What to deliver: TWO independent benign changes (A and B)")
+        open(f'/tmp/seedwork/prompt-{pid}-{tag}.txt', 'w').write(body)
         continue
     text = json.dumps({k: p[k] for k in ['id', 'title', 'statement', 'quantifier', 'why_tests_cant', 'anchors']}, indent=1)
     wt, out, demo = f'/tmp/seed{R}-{pid}', f'/tmp/seed{R}-{pid}-out', f'seeded_demo{R}_{pid.lower()}'
